@@ -11,11 +11,11 @@ Import ListNotations.
    covers the payload only, so a genuine message can be re-posted under another round identifier
    or another event name of the same request shape. *)
 Theorem C10_accepted_contribution_is_authentic_partial :
-  forall now st m req pid h o,
+  forall put now st m req pid h o,
   ns_skip st = false ->
   m_event m <> ev_sig_init -> m_event m <> ev_sig_reconstructed -> m_event m <> ev_sig_recon_failed ->
   m_req m = MFsm req -> req_pid req = Some pid ->
-  process_message now {| h_st := st; h_tr := [] |} m = ROk h (Some o) ->
+  process_message put now {| h_st := st; h_tr := [] |} m = ROk h (Some o) ->
   (exists p, round_payload st (m_round m) p /\ valid_sig p m) /\
   (exists p', registered_as p' (m_sender m) pid).
 Proof. exact accepted_contribution_is_authentic. Qed.
@@ -28,12 +28,12 @@ Print Assumptions C10_accepted_contribution_is_authentic_partial.
    own key. *)
 Require Import Node.Authentic.
 Theorem C10_accepted_message_is_authentic :
-  forall now st m req pid h x,
+  forall put now st m req pid h x,
   ns_skip st = false ->
   m_event m <> ev_sig_init -> m_event m <> ev_sig_reconstructed -> m_event m <> ev_sig_recon_failed ->
   m_req m = MFsm req -> req_pid req = Some pid ->
   in_progress st (m_round m) ->
-  process_message now {| h_st := st; h_tr := [] |} m = ROk h x ->
+  process_message put now {| h_st := st; h_tr := [] |} m = ROk h x ->
   (exists p, round_payload st (m_round m) p /\ valid_sig p m) /\
   (exists p', registered_as p' (m_sender m) pid).
 Proof. exact accepted_message_is_authentic. Qed.
